@@ -639,12 +639,12 @@ func connectExtractTimeout(headers http.Header, meta *requestMeta) error {
 	if str == "" {
 		return nil
 	}
+	if !isASCIIDigits(str) { // no sign, no spaces: ParseInt alone would accept "+1" and "-0"
+		return fmt.Errorf("timeout header has invalid value: %q", str)
+	}
 	timeoutInt, err := strconv.ParseInt(str, 10, 64)
 	if err != nil {
 		return err
-	}
-	if timeoutInt < 0 {
-		return fmt.Errorf("timeout header indicated invalid negative value: %d", timeoutInt)
 	}
 	timeout := time.Millisecond * time.Duration(timeoutInt)
 	if timeout.Milliseconds() != timeoutInt {
